@@ -1,9 +1,12 @@
 #!/bin/bash
-# final validation on the unchanged tree: quick tier under three PRNG values, then the thorough tier, then the quick tier
-# again under the default value (so that the committed evidence files come from the command run on every change)
+# final validation on the unchanged tree: quick tier under VERIF_SEED=1 (what the acceptance harness exports), the thorough
+# tier for the checks whose code changed since the last full thorough sweep, quick under another PRNG value, the rest of the
+# thorough tier while time remains, and the quick tier under the default value last (so that the committed evidence files
+# come from the command run on every change)
 cd "$(dirname "$0")"
 VERIF_SEED=1 ./sweep.sh quick > /tmp/final_q1.log 2>&1
+./sweep.sh thorough C18 C01 C06 C09 C15 > /tmp/final_thorough.log 2>&1
 VERIF_SEED=7 ./sweep.sh quick > /tmp/final_q7.log 2>&1
-./sweep.sh thorough > /tmp/final_thorough.log 2>&1
+./sweep.sh thorough C02 C10 C12 C07 >> /tmp/final_thorough.log 2>&1
 ./sweep.sh quick > /tmp/final_q0.log 2>&1
 echo FINAL DONE >> /tmp/final_q0.log
